@@ -107,4 +107,21 @@ Section MemoryConc.
     simpl. assert (Q : desc_eqb (m_d t) (m_d t) = true) by (apply desc_eqb_spec; reflexivity).
     rewrite Q. split; [reflexivity|exact Pt].
   Qed.
+
+  Lemma explore_m_reachable fuel : forall st st',
+    In st' (explore_m H fuel st) -> exists sched, mrun H st sched = Some st'.
+  Proof.
+    induction fuel as [|f IH]; intros st st'; simpl; [intros []|].
+    set (nexts := flat_map (fun i => match mstep H st i with Some st1 => [st1] | None => [] end)
+                           (seq 0 (length (ms_thr st)))).
+    assert (Hn : forall st1, In st1 nexts -> exists i, mstep H st i = Some st1).
+    { intros st1 I1. apply in_flat_map in I1 as (i & _ & I2).
+      destruct (mstep H st i) as [s|] eqn:E; [|destruct I2].
+      destruct I2 as [->|[]]. exists i. exact E. }
+    destruct nexts as [|n0 nr] eqn:En.
+    - intros [<-|[]]. exists []. reflexivity.
+    - intro I1. apply in_flat_map in I1 as (st1 & I2 & I3).
+      destruct (Hn st1 I2) as (i & Es). destruct (IH _ _ I3) as (sched & Er).
+      exists (i :: sched). simpl. rewrite Es. exact Er.
+  Qed.
 End MemoryConc.
